@@ -31,6 +31,7 @@ def run (s : SvcW) (args : List String) : SvcW × String :=
   | ["svc.sub", id, h, _] => via (.subscribe id.toNat! h.toNat!)
   | ["svc.state"] => (s, stateStr s.svc)
   | ["svc.clientobjs", _] => (s, "ok")   -- identifiers unique, a second removal refused, the others unaffected (ids_unique, remove_frees, others_unaffected): the same machine, the table is the client's
+  | ["svc.posttold"] => (s, "ok")   -- every subscriber there at the removal is told (remove_tells_subscribers), however it registered
   | ["svc.termwalk"] => (s, "ok")   -- the subscribers there at the removal are told, each of them (remove_tells_subscribers): the removed instance's list is its own
   | ["svc.hookremove", _] => (s, "ok")   -- each removal is a step of its own (terminate_once, unreachable_after_remove, others_unaffected): the hook runs outside the critical section
   | ["svc.busy", _, _, _] => (s, "ok")   -- a removed object is unreachable (unreachable_after_remove), its hook ran once (terminate_once), the others are unaffected (others_unaffected)
